@@ -23,7 +23,8 @@ EXPLANATION = (
     " (R10) integer + - * are computed directly, not through the negation of the mirrored operation: an operation whose result is representable does not end the program with Overflow because an intermediate value is not (shared with C06.R10)."
     " (R11) the emitter of expressions emits straight-line code (no label, no jump): every operand of every operator is evaluated whenever the expression is - there is no short circuit that would hide an operand's run-time error."
     " (R12) the grouping rules of the expression parser (rotation predicates on every operator pair, the rotations interpreted on every chain) shared from C10."
-    " (R13) inside a loop of a generator function the length of a list of blocks is compared with a position only while the list is whole (nothing is taken out of it in that loop): the jump to `the next ELSEIF, or ELSE when this is the last` does not skip blocks.")
+    " (R13) inside a loop of a generator function the length of a list of blocks is compared with a position only while the list is whole (nothing is taken out of it in that loop): the jump to `the next ELSEIF, or ELSE when this is the last` does not skip blocks."
+    " (R14 = C02.R5) labels and the variables of the generator's own making are named from the purpose and the whole position (row and column, fields delimited): two statements on one line do not share a FOR limit.")
 NOT_DECIDED = ["agreement of printed output with the reference semantics for every program and value"]
 
 # operator name -> Ordering values for which the comparison holds
@@ -616,3 +617,7 @@ def run(ctx):
     c10.r6_unary_over_chains(ctx, "C01.R12")
     c10.r10_binary_chains(ctx, "C01.R12")
     r13_numbered_list_does_not_shrink(ctx)
+    # two statements never share a label or a variable of the generator's own making: the names are injective in
+    # (purpose, whole position) - shared with C02.R5
+    from . import c02
+    c02.r5_label_names_injective(ctx, "C01.R14")
